@@ -239,6 +239,9 @@ type procResult struct {
 	// bytes written to its input before the scripted silence, and bytes that had come
 	// out of it when the silence ended
 	InBeforeSilence, OutAtSilenceEnd int
+	// when the run had to be ended: the number of input bytes the program's standard
+	// input had accepted at least a minute earlier
+	AcceptedAMinuteBeforeTheEnd int
 }
 
 // runAppProcess runs a real application binary built from the current tree.
@@ -263,6 +266,12 @@ func runAppProcess(c *child.Ctx, bin string, args []string, stdin []byte, k appC
 	}
 	cmd.Env = append(cmd.Env, extraEnv...)
 	var res procResult
+	type wroteAt struct {
+		at time.Time
+		n  int
+	}
+	var wrote []wroteAt
+	var wroteMu sync.Mutex
 	var outMu sync.Mutex
 	exited := make(chan struct{})
 	refused := make(chan struct{})
@@ -282,9 +291,19 @@ func runAppProcess(c *child.Ctx, bin string, args []string, stdin []byte, k appC
 		cmd.Stdin = f
 		defer f.Close()
 	} else {
-		inR, inW, _ = os.Pipe()
 		if k.StdinNonblock {
-			syscall.SetNonblock(int(inR.Fd()), true)
+			// os.Pipe's files are marked non-blocking inside Go and every Fd() call - also
+			// the one made when the process is started - puts them back into blocking
+			// mode; a pipe made by hand and wrapped while still blocking keeps the mode
+			// that is set afterwards
+			var p [2]int
+			if err := syscall.Pipe2(p[:], syscall.O_CLOEXEC); err == nil {
+				inR, inW = os.NewFile(uintptr(p[0]), "stdin-read-end"), os.NewFile(uintptr(p[1]), "stdin-write-end")
+				syscall.SetNonblock(p[0], true)
+			}
+		}
+		if inR == nil {
+			inR, inW, _ = os.Pipe()
 		}
 		cmd.Stdin = inR
 	}
@@ -329,6 +348,9 @@ func runAppProcess(c *child.Ctx, bin string, args []string, stdin []byte, k appC
 					break
 				}
 				data = data[n:]
+				wroteMu.Lock()
+				wrote = append(wrote, wroteAt{time.Now(), len(stdin) - len(data)})
+				wroteMu.Unlock()
 				if k.ReaderUs > 0 && r.Chance(1, 3) {
 					time.Sleep(time.Duration(r.Intn(k.ReaderUs)+1) * time.Microsecond)
 				}
@@ -394,6 +416,13 @@ func runAppProcess(c *child.Ctx, bin string, args []string, stdin []byte, k appC
 		}
 	default:
 		res.TimedOut = true
+		wroteMu.Lock()
+		for _, w := range wrote {
+			if time.Since(w.at) > time.Minute {
+				res.AcceptedAMinuteBeforeTheEnd = w.n
+			}
+		}
+		wroteMu.Unlock()
 		cmd.Process.Signal(syscall.SIGQUIT)
 		select {
 		case <-waitDone:
